@@ -1078,10 +1078,13 @@ def _stack_of_vertices(e, mesh):
     return src(e2) in (f"{mesh}.vertices._data", f"{mesh}.vertices", f"list({mesh}.vertices)", f"list({mesh}.vertices._data)")
 
 
-def vpoly(e, atom_of):
-    """like sym.to_poly, with `a / b` read as a * (1/b) for a non-constant b and one-argument conversions stripped"""
+def vpoly(e, atom_of, row=None):
+    """like sym.to_poly, with `a / b` read as a * (1/b) for a non-constant b and one-argument conversions stripped;
+    row = (mesh, index name): `Block[index]` with Block computed from the stack of all the positions is read row-wise as Block"""
     def rec(x):
         x = _strip_conv(x)
+        if row is not None:
+            x = _unrow(x, row[0], row[1])
         a = atom_of(x)
         if a is not None:
             return a if isinstance(a, P) else P.atom(a)
@@ -1214,7 +1217,7 @@ def f1_transform_formulas(ctx):
                 continue
             i, v, ev, objs = mv
             mesh = ps_[0]
-            poly = vpoly(_unrow(v, mesh, i), _point_atom(mesh, i, objs))
+            poly = vpoly(_unrow(v, mesh, i), _point_atom(mesh, i, objs), row=(mesh, i))
             want = P.atom("P") + vpoly(value_of(p, ps_[1]), lambda e: None)
             if poly == want:
                 res.append(("ok", ""))
@@ -1234,7 +1237,7 @@ def f1_transform_formulas(ctx):
                 continue
             i, v, ev, objs = mv
             mesh = ps_[0]
-            poly = vpoly(_unrow(v, mesh, i), _point_atom(mesh, i, objs))
+            poly = vpoly(_unrow(v, mesh, i), _point_atom(mesh, i, objs), row=(mesh, i))
             O = vpoly(value_of(p, ps_[2], ZERO), lambda e: None)
             f = vpoly(value_of(p, ps_[1]), lambda e: None)
             want = O + f * (P.atom("P") - O)
@@ -1264,11 +1267,11 @@ def f1_transform_formulas(ctx):
                     return a
                 if isinstance(e, ast.Call) and isinstance(e.func, ast.Attribute) and e.func.attr in ("apply", "dot") and len(e.args) == 1 and not e.keywords \
                         and not any(_pa(x) for x in ast.walk(e.func.value)):
-                    return P.atom("R") * vpoly(e.args[0], atom_of)
+                    return P.atom("R") * vpoly(e.args[0], atom_of, row=(mesh, i))
                 if isinstance(e, ast.BinOp) and isinstance(e.op, ast.MatMult):
                     return P.atom("R") * vpoly(e.right, atom_of) if not any(_pa(x) for x in ast.walk(e.left)) else None
                 return None
-            poly = vpoly(_unrow(v, mesh, i), atom_of)
+            poly = vpoly(_unrow(v, mesh, i), atom_of, row=(mesh, i))
             O = vpoly(value_of(p, ps_[2], ZERO), lambda e: None)
             want = O + P.atom("R") * (P.atom("P") - O)
             if poly == want:
@@ -1344,6 +1347,8 @@ def _components(e, mesh, i, O, objs=()):
 
     def rec(x):
         x = _strip_conv(x)
+        if isinstance(x, ast.Subscript) and isinstance(x.slice, ast.Slice) and x.slice.lower is None and x.slice.step is None and au.const(x.slice.upper) == 3:
+            x = _strip_conv(x.value)            # v[:3] of a 3D vector
         va = vec_atom(x)
         if va:
             return [P.atom(f"{va}{k}") for k in range(3)]
@@ -1418,6 +1423,18 @@ def _box_atom(mesh):
 
     def f(e):
         s = src(e)
+        if isinstance(e, ast.Call) and au.call_tail(e) in ("min", "amin", "max", "amax"):
+            # np.min(points, axis=0) / points.max(axis=0) with points = all the positions stacked: the corners of the bounding box
+            axis = next((k.value for k in e.keywords if k.arg == "axis"), None)
+            recv = None
+            if isinstance(e.func, ast.Attribute) and src(e.func.value) in ("np", "numpy") and e.args:
+                recv = e.args[0]
+                axis = axis if axis is not None else (e.args[1] if len(e.args) > 1 else None)
+            elif isinstance(e.func, ast.Attribute) and not src(e.func.value) in ("np", "numpy"):
+                recv = e.func.value
+                axis = axis if axis is not None else (e.args[0] if e.args else None)
+            if recv is not None and axis is not None and au.const(axis) == 0 and _stack_of_vertices(recv, mesh):
+                return P.atom("MINI" if au.call_tail(e) in ("min", "amin") else "MAXI")
         if s == box + ".center":
             return (P.atom("MINI") + P.atom("MAXI")).scale(Fraction(1, 2))
         if s == box + ".mini":
@@ -1493,7 +1510,7 @@ def n1_normalize(ctx):
         n_moves = 0
         for i, v, ev, objs in _moves(p, mesh, inplace=True):
             pa = _point_atom(mesh, i, objs)
-            poly = vpoly(_unrow(v, mesh, i), lambda e, _pa=pa: (_pa(e) or box(e)))
+            poly = vpoly(_unrow(v, mesh, i), lambda e, _pa=pa: (_pa(e) or box(e)), row=(mesh, i))
             # substitute the position reached so far for P
             new = P.const(0)
             for mono, c in poly.t.items():
